@@ -39,6 +39,9 @@ logging.disable(logging.CRITICAL)
 PLAN_DEFAULT = {"imm": False, "onc": "prop", "ecb": "none", "ccb": "none", "shape": 0}
 
 
+FN_NAME = "wK"      # the worker function's name (mixed case on purpose; spec/PoolImpl.tla FnName)
+
+
 class Boom(Exception):
     """Injected failure; the token identifies the injection site."""
 
@@ -129,7 +132,8 @@ class World:
         self.pos = 0
         self.armed = []         # [(point pattern, op, remaining uses)]
         self.xlog = []          # the primitive commands actually executed, each with the observation after it
-        self.xstop = False      # set once something happened that spec/PoolImpl.tla has no counterpart for
+        # set once something happened that spec/PoolImpl.tla has no counterpart for (or from the start: "nofollow")
+        self.xstop = bool(cfg.get("nofollow")) if isinstance(cfg, dict) else False
         self.inhandle = []      # operations performed at user-code points during the current step
         self.drift = None
         self.skipped = 0
@@ -454,7 +458,7 @@ class PoolRun:
             def __next__(self):
                 j = st["pulls"]
                 try:
-                    ng = len(me.pool.get_group_ids(st["gname"])) if st.get("gname") else -1
+                    ng = len(me.pool.get_group_ids(st["gname"])) if st.get("gname") is not None else -1
                 except Exception:
                     ng = -1
                 if j >= len(els):
@@ -481,8 +485,8 @@ class PoolRun:
                 raise boom("call-%d-%d" % (r, j))
             return me.body(r, j, tpl)
 
-        func.__name__ = "w"                         # shared on purpose: generated group names must count up
-        func.__qualname__ = "Harness.<locals>.w"    # the documented pattern uses the plain name
+        func.__name__ = FN_NAME                     # shared on purpose: generated group names must count up
+        func.__qualname__ = "Harness.<locals>." + FN_NAME    # the documented pattern uses the plain name
         inspect.markcoroutinefunction(func)
         return func
 
@@ -495,7 +499,7 @@ class PoolRun:
 
         def w(self_, *a, **kw):
             return func(*a, **kw)
-        w.__qualname__ = "Holder.w"
+        w.__name__, w.__qualname__ = FN_NAME, "Holder.Run." + FN_NAME
         inspect.markcoroutinefunction(w)
         return types.MethodType(w, Holder())
 
@@ -647,9 +651,9 @@ class PoolRun:
         if "g" in op:
             return op["g"]
         st = self.reqs.get(op.get("r"))
-        if st and st.get("gname"):
+        if st and st.get("gname") is not None:
             return st["gname"]
-        if st and st.get("tpl") and st["tpl"].get("gname"):
+        if st and st.get("tpl") and st["tpl"].get("gname") is not None:
             return st["tpl"]["gname"]
         return "nosuch-%s" % op.get("r")
 
@@ -745,13 +749,13 @@ class PoolRun:
         elif o == "cancel":
             x["ids"] = list(f["ids"])
         elif o == "cancel_group":
-            x.update(g=f["g"], r=-1)
+            x.update(g=f["g"] or "<empty>", r=-1)
         elif o in ("stop",):
             x["n"] = f["n"]
         elif o == "set_size":
             x["n"] = f["n"]
         elif o == "get_ids":
-            x["names"] = list(f["names"])
+            x["names"] = [n or "<empty>" for n in f["names"]]
         elif o == "hstart":
             x.update(kind=f["kind"], re=f["re"])
         elif o == "hcancel":
@@ -802,14 +806,14 @@ class PoolRun:
         ccb = self.make_cb("ccb", tpl["ccb"], r)
         gname = tpl.get("gname")
         f.update(r=r, t=op["t"], kind=kind, num=tpl["num"], nc=tpl.get("nc", 1), named=gname is not None,
-                 gname=gname or "", fn=getattr(func, "__name__", "w"), notcoro=bool(tpl.get("notcoro")), ret="",
+                 gname=gname or "", fn=getattr(func, "__name__", FN_NAME), notcoro=bool(tpl.get("notcoro")), ret="",
                  ecb=cbk(tpl["ecb"]), ccb=cbk(tpl["ccb"]), bad=sorted(tpl.get("bad", [])))
         if kind == "apply" and tpl.get("mismatch") and not tpl.get("notcoro"):
             # arguments that do not fit the function: the request is accepted all the same, every invocation fails when
             # func is called (before its body) and is skipped - so no call is ever recorded and no task appears
             def strict(only, *, also):
                 raise AssertionError("unreachable")
-            strict.__name__, strict.__qualname__ = "w", "Harness.<locals>.w"
+            strict.__name__, strict.__qualname__ = FN_NAME, "Harness.<locals>." + FN_NAME
             inspect.markcoroutinefunction(strict)
             f.update(num=0, exp=[])
             ret = pool.apply(strict, args=(), kwargs={}, num=tpl["num"], group_name=gname, end_callback=ecb, cancel_callback=ccb)
